@@ -546,3 +546,67 @@ MUTANTS = [
     dict(name="revert F6 fix (<k>b spelling)", file="cli/zoomify.py", old='            elif res.endswith("b"):\n                res = int(res.split("b")[0])', new='            elif res.endswith("n"):\n                res = int(res.split("b")[0])', checks=["zoomify_spec"]),
     dict(name="binary progression clipped one step early", file="_reduce.py", old="        if n > stop:\n            break", new="        if n >= stop:\n            break", checks=["zoomify_spec"]),
 ]
+
+
+# ---------------------------------------------------------------------------
+# cooler zoomify --field: every named column gets exactly the dtype / aggregation written next to its own name
+# ---------------------------------------------------------------------------
+FIELD_FORMS = ["count", "count:dtype=float64", "x", "x:agg=max", "x:dtype=int64,agg=max", "y:agg=min", "y:dtype=float32", "y"]
+
+
+def zfields_body(env, p):
+    """`cooler zoomify --field ...` up to the call into zoomify_cooler: the columns handed over are the named ones, in the order given, and
+    the dtype / aggregation of each is the one the user wrote for that column (nothing for a column named bare); without --field the count
+    column with default settings. The set of --field arguments is solver-chosen (which of `count`, `x`, `y` are named, and in which form)."""
+    import numpy as np
+    env.reset()
+    from .common import scratch_file, vals
+    bins = concrete_bins([3], "even")
+    path = scratch_file("c16f.cool")
+    env.build_cooler(path, bins, [0], [1], {"count": [2], "x": [5], "y": [7]}, True, dtypes={"x": "int64", "y": "int64"})
+    Z = env.mod("cli.zoomify")
+    picks = []
+    for nm, forms in (("count", [None, 0, 1]), ("x", [None, 2, 3, 4]), ("y", [None, 5, 6, 7])):
+        k = env.choice(f"form_{nm}", len(forms))
+        if forms[k] is not None:
+            picks.append(FIELD_FORMS[forms[k]])
+    if env.choice("reverse", 2):
+        picks = picks[::-1]
+    env.cover("count_not_named", bool(picks) and not any(f.split(":")[0] == "count" for f in picks))
+    env.cover("mixed_properties", sum(":" in f for f in picks) >= 2)
+    got = {}
+    saved = Z.zoomify_cooler
+
+    def rec(uris, outfile, resolutions, chunksize, **kw):
+        got.update(kw)
+    Z.zoomify_cooler = rec
+    try:
+        Z.zoomify.callback(cool_uri=path, nproc=1, chunksize=100, resolutions="20", balance=False, balance_args=None, field=tuple(picks), legacy=False,
+                           base_uri=(), out=scratch_file("c16f.mcool"))
+    finally:
+        Z.zoomify_cooler = saved
+    want_cols, want_dt, want_agg = [], {}, {}
+    for f in picks:
+        nm, _, props = f.partition(":")
+        want_cols.append(nm)
+        for kv in filter(None, props.split(",")):
+            k, v = kv.split("=")
+            (want_dt if k == "dtype" else want_agg)[nm] = v
+    if not picks:
+        want_cols = ["count"]
+    cols = list(got.get("columns") or [])
+    env.check(cols == want_cols, f"--field {picks}: columns handed to zoomify_cooler are {cols}, the user named {want_cols}")
+    agg = {k: (v if isinstance(v, str) else getattr(v, "__name__", str(v))) for k, v in (got.get("agg") or {}).items()}
+    dts = {k: str(np.dtype(v)) for k, v in (got.get("dtypes") or {}).items()}
+    env.check(agg == want_agg, f"--field {picks}: aggregations {agg} are not the ones written next to each column {want_agg}")
+    env.check(dts == want_dt, f"--field {picks}: dtypes {dts} are not the ones written next to each column {want_dt}")
+    return [cols, sorted(agg.items()), sorted(dts.items())]
+
+
+zfields_sym, zfields_real = both(zfields_body)
+
+CHECKS.append(Check("zoomify_fields", lambda tier: [dict()], zfields_sym, zfields_real, labels=("count_not_named", "mixed_properties"),
+                    doc="cooler zoomify --field with a solver-chosen set of field arguments (which columns, bare or with dtype / agg, either order): the "
+                        "columns, dtypes and aggregations handed to zoomify_cooler are exactly the ones written for each column",
+                    bounds=dict(forms="8 field spellings over the columns count, x, y; every subset with one spelling per column, both orders"),
+                    stubs=("zoomify_cooler intercepted (its behaviour for given columns/dtypes/agg is C09 `zoomify` and C08 `coarsen`)",)))
